@@ -228,6 +228,7 @@ class Result(object):
         self.deadlock = None  # None or {tid: (file, line)} of the parked, disabled threads
         self.nthreads = 0
         self.parents = {}  # dynamically started thread -> (parent tid, step index)
+        self.names = {}  # tid -> threading.Thread.name (workers: "sched-<run>-<tid>")
         self.calls = []  # (len(trace) at that moment, tid, function name) for every target-file frame entered
         self.leaked = []
 
@@ -357,6 +358,7 @@ class Scheduler(object):
             self._threads[tid] = thread
             self._by_thread[id(thread)] = tid
             self._result.parents[tid] = (parent, len(self._result.trace))
+            self._result.names[tid] = thread.name
         orig_run = thread.run
         thread.run = lambda: self._thread_main(tid, orig_run)
         try:
